@@ -41,6 +41,10 @@ pub struct Scn16 {
     pub predicate: bool,
     pub reqs: Vec<ReqSpec>,
     pub observe_at_ms: Vec<u64>,
+    /// Some(k): the k-th poll_ready of the wrapped service (0-based, counting the callers' own
+    /// and those before retries) fails. Only the readiness rule is applied to such a run.
+    #[serde(default)]
+    pub ready_fail_at: Option<u32>,
 }
 
 struct Table(Vec<u64>);
@@ -120,7 +124,8 @@ pub fn gen16(rng: &mut Rng) -> Scn16 {
         reqs.push(ReqSpec { script, gap_ms: *rng.pick(&[0u64, 1, 10, 100]), abandon_after_ms: if rng.chance(1, 8) { Some(*rng.pick(&[0u64, 3, 7, 12, 30])) } else { None } });
     }
     let observe_at_ms = (0..rng.range(0, 8)).map(|_| rng.below(160)).collect();
-    Scn16 { policy, max_attempts, retry_on_reconnect: !rng.chance(1, 5), predicate: rng.chance(1, 2), reqs, observe_at_ms }
+    let ready_fail_at = if rng.chance(1, 8) { Some(rng.below(6) as u32) } else { None };
+    Scn16 { policy, max_attempts, retry_on_reconnect: !rng.chance(1, 5), predicate: rng.chance(1, 2), reqs, observe_at_ms, ready_fail_at }
 }
 
 pub fn valid16(s: &Scn16) -> bool {
@@ -128,6 +133,7 @@ pub fn valid16(s: &Scn16) -> bool {
         && s.reqs.len() <= 6
         && s.max_attempts.map(|m| m <= 8).unwrap_or(true)
         && s.reqs.iter().all(|r| !r.script.is_empty() && r.script.len() <= 14 && r.gap_ms <= 1000 && r.abandon_after_ms.map(|a| a <= 200).unwrap_or(true) && r.script.iter().all(|b| b.lat_ms <= 20 && matches!(b.out, Outcome::Ok | Outcome::Err(0) | Outcome::Err(1))))
+        && s.ready_fail_at.map(|k| k <= 16).unwrap_or(true)
         && s.observe_at_ms.len() <= 10
         && s.observe_at_ms.iter().all(|t| *t <= 2000)
         && match &s.policy {
@@ -168,6 +174,11 @@ pub fn run16(s: &Scn16, ctx: &mut RunCtx) -> RunOutput {
         world::with(|w| {
             for (i, r) in scn.reqs.iter().enumerate() {
                 w.script.by_req.insert((0, i as u32), r.script.clone());
+            }
+            if let Some(k) = scn.ready_fail_at {
+                let mut v = vec![0u8; k as usize];
+                v.push(2);
+                w.script.ready_script.insert(0, v);
             }
         });
         let mut b = ReconnectConfig::builder().policy(build_policy(&scn.policy)).retry_on_reconnect(scn.retry_on_reconnect);
@@ -220,6 +231,8 @@ pub fn run16(s: &Scn16, ctx: &mut RunCtx) -> RunOutput {
                             let class = classify_display(&e.to_string());
                             let code = ["MaxAttemptsExceeded", "ConnectionFailed", "ConnectionFailedNoRetry", "ServiceError", "Unknown"].iter().position(|c| *c == class).unwrap() as i64;
                             let payload = std::error::Error::source(&e).and_then(|s| s.downcast_ref::<SimErr>()).map(|x| x.serial as i64).unwrap_or(-1);
+                            let kind = std::error::Error::source(&e).and_then(|s| s.downcast_ref::<SimErr>()).map(|x| x.kind as i64).unwrap_or(-1);
+                            world::note("req_err_kind", i as i64, kind);
                             world::note("req_err", i as i64, code * 1_000_000 + payload.max(0));
                             world::note("req_state", i as i64, connected);
                         }
@@ -249,6 +262,28 @@ pub fn run16(s: &Scn16, ctx: &mut RunCtx) -> RunOutput {
     let calls = inner_calls(&log);
     if rep.tasks[0].status != Status::Resolved {
         world::violation("C16.call_bound", "driver", format!("request sequence did not finish: {:?} {:?}", rep.tasks[0].status, rep.tasks[0].panic_msg));
+    }
+    // a failing poll_ready of the wrapped service ends the request it happens in, as a readiness
+    // error: it is not a failed attempt to sleep on and retry
+    let ready_failed: Option<u64> = log.iter().find(|r| matches!(r.ev, world::Ev::InnerReady { res: 2, .. })).map(|r| r.seq);
+    if let Some(q) = ready_failed {
+        world::probe("readiness_error_during_request");
+        let starts: Vec<(u64, i64)> = notes(&log, "req_start").map(|(r, a, _)| (r.seq, a)).collect();
+        if let Some((_, i)) = starts.iter().filter(|(sq, _)| *sq < q).last() {
+            let later_calls = calls.iter().filter(|c| c.req == *i as u32 && c.start_seq > q).count();
+            let kind = notes(&log, "req_err_kind").find(|(_, a, _)| a == i).map(|(_, _, k)| k);
+            let abandoned = notes(&log, "req_abandoned").any(|(_, a, _)| a == *i);
+            if !abandoned && (later_calls > 0 || kind != Some(crate::inner::READY_ERR_KIND as i64)) {
+                world::violation(
+                    "C16.readiness_error",
+                    if later_calls > 0 { "retried" } else { "swallowed" },
+                    format!("request {}: the wrapped service's poll_ready failed while the request was handled; afterwards {} more inner calls were made and the caller got error-source kind {:?} (readiness error kind = {})", i, later_calls, kind, crate::inner::READY_ERR_KIND),
+                );
+            }
+        }
+        let mut w = world::take();
+        w.log = log;
+        return finish(w, ctx, &rep, "C16", true, json!({"readiness_error": true}));
     }
     let mut retried = false;
     for (i, r) in s.reqs.iter().enumerate() {
